@@ -336,6 +336,13 @@ func (g *G) tMeta() []*S {
 			}
 		}
 		out = append(out, Emit(Bin("eq", Var(a), Var(a)), Bin("eq", Var(a), Int(1)), Bin("lt", Var(a), Int(5)), Bin("ge", Int(5), Var(b))))
+		// a type that defines __lt only: `>` is `<` with the operands swapped and still works
+		if g.chance(60) {
+			lo := g.fresh("lo")
+			out = append(out, Local1(lo, Tbl(NV("__lt", Fn([]string{"x", "y"}, false, Emit(Str("only __lt"), tagOf("x"), tagOf("y")), Return(Bin("lt", CallN("rawget", Var("x"), Str("tag")), CallN("rawget", Var("y"), Str("tag")))))))),
+				Local([]string{"p1", "p2"}, CallN("setmetatable", Tbl(NV("tag", Int(1))), Var(lo)), CallN("setmetatable", Tbl(NV("tag", Int(2))), Var(lo))),
+				Emit(Bin("gt", Var("p1"), Var("p2"))), Emit(Bin("gt", Var("p2"), Var("p1"))), Emit(Bin("lt", Var("p1"), Var("p2"))))
+		}
 	case 4:
 		// __index / __newindex functions
 		out = append(out,
@@ -546,7 +553,13 @@ func (g *G) tStringCoerce() []*S {
 func (g *G) tForEdge() []*S {
 	g.feat("loop")
 	mx, mn := Dot(Var("math"), "maxinteger"), Dot(Var("math"), "mininteger")
-	switch g.pick(5) {
+	switch g.pick(7) {
+	case 5:
+		// an integer initial value with a float step: the loop is a float loop from its first iteration on
+		return []*S{ForNum("i", Int(int64(g.pick(3))), Int(int64(2+g.pick(2))), Flt(g.pickF([]float64{0.5, 1.0, 2.0})), Emit(Var("i"), Call(Dot(Var("math"), "type"), Var("i")), Bin("idiv", Var("i"), Int(1))))}
+	case 6:
+		return []*S{ForNum("i", Int(int64(3+g.pick(2))), Int(1), Flt(g.pickF([]float64{-1.0, -0.5, -2.0})), Emit(Var("i"), Call(Dot(Var("math"), "type"), Var("i")))),
+			ForNum("i", Flt(1.0), Int(2), Int(1), Emit(Var("i"), Call(Dot(Var("math"), "type"), Var("i"))))}
 	case 0:
 		return []*S{ForNum("i", Bin("sub", mx, Int(2)), mx, nil, Emit(Var("i")))}
 	case 1:
